@@ -96,7 +96,7 @@ def replay_equiv(d):
     return (not p), "seed %s %s: %s" % (d["inputs"]["seed"], desc, p or "equivariant")
 
 
-@bounded("C11.assigner_equivariance", ["C11"], note="reads derived from isoforms (11 perturbation kinds) through the real assigner and exon "
+@bounded("C11.assigner_equivariance", ["C11"], shards=14, note="reads derived from isoforms (11 perturbation kinds) through the real assigner and exon "
          "corrector: shifting gene and read by k (incl. 255, 256, non-multiples of the bin) changes nothing but coordinates; reflecting "
          "both (strands flipped) keeps assignment type and isoform set, swaps left/right events and mirrors the corrected exons")
 def c11_e2e(tier, rng):
